@@ -339,7 +339,10 @@ def decide(pid, tier, seed, replay, t0):
     if replay:
         body = json.load(open(replay))
         lines = [c["line"] for c in body.get("cases", []) if "line" in c]
+        ctx = {c["line"]: c.get("context", []) for c in body.get("cases", []) if "line" in c}
         for l in lines:
+            for cl in ctx.get(l, []):       # the operations that preceded it in the run (state kept between calls)
+                impl.run(cl.split(" #")[0])
             io_ = impl.run(l.split(" #")[0])
             msg = mod.oracle(l, io_)
             log("replay: %s -> impl %s ; oracle: %s" % (l, io_, msg or "holds"))
@@ -387,7 +390,8 @@ def decide(pid, tier, seed, replay, t0):
     # ---- oracle on every case (property restated on the real code's outputs)
     ok_n = sum(1 for o in impl_out if o.startswith("ok"))
     nontrivial = set()
-    for l, o in zip(full_lines, impl_out):
+    context = {}
+    for i_, (l, o) in enumerate(zip(full_lines, impl_out)):
         try:
             if mod.nontrivial(l, o):
                 nontrivial.add(l)
@@ -405,6 +409,7 @@ def decide(pid, tier, seed, replay, t0):
                 known_lines.append("KNOWN-FINDING: property=%s %s [%s]" % (pid, k["what"], l))
             else:
                 failures.append((l, msg))
+                context.setdefault(l, full_lines[max(0, i_ - 8):i_])
     extra = getattr(mod, "extra_checks", None)
     extra_info = {}
     if extra:
@@ -461,7 +466,9 @@ def decide(pid, tier, seed, replay, t0):
         nviol = len(failures)
         body = {"property": pid, "kind": "failing-input", "seed": seed, "tier": tier,
                 "cases": [{"line": l, "impl": impl.run(l.split(" #")[0]) if l and not l.startswith("#") else None,
-                           "why": m} for l, m in failures[:10]],
+                           "why": m, "context": context.get(l, [])} for l, m in failures[:10]],
+                "note": "context = the operations that ran just before the failing one in the same process; "
+                        "--replay runs them first (some failures need state left behind by earlier calls)",
                 "proof_problems": problems, "disagreements": disagreements[:10]}
         path = write_replay(pid, seed, 0, body)
         log("  failing input: %s :: %s" % failures[0])
